@@ -5,7 +5,7 @@ line. Core-only (built as `lean_exe protodrv`).
 Byte strings and paths are lower-case hex ("-" = empty); chunk lists are comma-separated
 hex strings; files are `<pathhex>=<contenthex>` and are printed sorted.
 
-  F  <chunks>                         read frames until the stream ends
+  F  <threshold> <chunks>             read frames until the stream ends (fast-path threshold given)
   FW <hex>                            the Write calls of frame.Writer.Write
   HR handshake|goodbye                the request frame the host sends
   PC p | PD p | PB p | PA p           Clean / Dir / Base / IsAbs
@@ -129,7 +129,7 @@ plugin whether the error output names it and what the plugin saw); `HT` adds the
 own actions per plugin. -/
 def showResult (trace : Bool) (r : Result) : String :=
   let w := match r.wrote with
-    | some fs => showFiles fs
+    | some fs => showFiles (fs.map fun (x : Str × Content) => ((join2 [(Char.ofNat 47)] x.1).drop 1, x.2))   -- position below the output directory
     | none => "-"
   s!"ok {verdictText r.exit} {w} " ++ " ".intercalate (r.recs.map (showRec trace))
 
@@ -195,13 +195,13 @@ def showOptList : Option (List Nat) → String
 
 def step (line : String) : String :=
   match (line.trimAscii.toString.splitOn " ").filter (· ≠ "") with
-  | ["F", chunks] =>
-    match pChunks [chunks] with
-    | some (cs, _) =>
-      match readFrames cs with
+  | ["F", thr, chunks] =>
+    match thr.toNat?, pChunks [chunks] with
+    | some thr, some (cs, _) =>
+      match readFramesT thr cs with
       | (ms, clean) =>
         " ".intercalate (["ok", if clean then "1" else "0", toString ms.length] ++ ms.map hexOrDash)
-    | none => "bad-op"
+    | _, _ => "bad-op"
   | ["FW", hex] =>
     match bytesOfHex hex with
     | some m => "ok " ++ showChunks (writeFrame m)
